@@ -24,7 +24,7 @@ META = {
             "preempted once at every line of the cache code it executes while another client finishes every unfinished trial and "
             "thread B of the same client reads; for every such line at which B got through, B is in turn preempted at every line of "
             "its read (two-preemption schedules); after both returned the client's views (all filters, get_trial, twice) must equal "
-            "the raw reader's. Held on the interleavings generated and the schedules enumerated (time-sliced per cell; cuts counted).",
+            "the raw reader's. One scenario tracks more unfinished trials (520) than the cached client's SQLite connection accepts bind variables (limit lowered to 510), so the incremental fetch takes its slow path. Held on the interleavings generated and the schedules enumerated (time-sliced per cell; cuts counted).",
     "note": "Trusted: RefStorage and the raw reader (a plain RDBStorage / the server-side storage object). A violation that needs a "
             "delete_study issued by ANOTHER client followed by SQLite re-issuing the deleted row ids is the documented known "
             "finding F11.",
